@@ -300,18 +300,21 @@ func runC17E2E(t *testing.T, rng *rand.Rand, rec *sim.Rec, tier string, caseNo i
 	_ = w
 	logs := sim.NewLogSink()
 	gen := &simpleGen{n: n}
+	// the operator's realm is used exactly as configured, whatever its letter case or script
+	realm := pick(rng, []string{"verif.test", "Pion.LY", "EXAMPLE.ORG", "Straße.example", "re%alm", "пример.рф"})
+	user := pick(rng, []string{"alice", "room42:device7", "@alice:example.org", "a b", "50%off"})
 	srv, err := turn.NewServer(turn.ServerConfig{
-		Realm: "verif.test", AuthHandler: kind.handler(secret), LoggerFactory: logs,
+		Realm: realm, AuthHandler: kind.handler(secret), LoggerFactory: logs,
 		PacketConnConfigs: []turn.PacketConnConfig{{PacketConn: lsock, RelayAddressGenerator: gen}},
 	})
 	if err != nil {
 		t.Fatal(err)
 	}
 	defer srv.Close() //nolint:errcheck
-	username, password, _ := kind.gen(secret, "alice", dur)
+	username, password, _ := kind.gen(secret, user, dur)
 	expiry := time.Now().Add(dur).Unix()
 	try := func(port int, pw string) error {
-		rc, err := sim.NewRealClient(n, net.IPv4(10, 1, 0, 1).To4(), port, "10.0.0.1:3478", username, pw, "verif.test", 0, logs, nil)
+		rc, err := sim.NewRealClient(n, net.IPv4(10, 1, 0, 1).To4(), port, "10.0.0.1:3478", username, pw, realm, 0, logs, nil)
 		if err != nil {
 			return err
 		}
